@@ -1,6 +1,7 @@
 ---------------------------- MODULE Trace_Rhumb ----------------------------
 (* Validates observations of Rhumb / RhumbLine (C09).                              *)
 (*   li, ld : replays of the lattice vectors of MC_Rhumb, judged by RhumbLattice   *)
+(*   lm, im : replays of the call-form x output-mask vectors of MC_Rhumb           *)
 (*   ell    : one record per ellipsoid configuration                              *)
 (*   inv    : seeded random inverse problems                                       *)
 (*   dir    : seeded random direct problems (Rhumb::Direct, RhumbLine::Position,   *)
@@ -29,10 +30,13 @@ Rel(x) == ((Min(x, 50000000) \div 1000) * RelTol) \div 1000
 Turns(lq) == (lq \div 100000) * 1745
 \* kap = max(a/b, b/a): one ulp of latitude is kap times longer on the flat side of an eccentric ellipsoid
 TolL(r, x) == (TolLen + Rel(x)) * r.kap * (IF r.se = 1 THEN SeriesEdge ELSE 1)
-TolA(r) == TolArea * r.kap * (IF r.se = 1 THEN SeriesEdge ELSE 1)
+\* areas are judged on the scale of the ellipsoid's own area: TolArea is a fraction of c^2 (authalic radius squared) per
+\* 180 degrees of longitude; c2q = c^2 / L^2 in ppm turns it into the unit of the residuals (1e-19 L^2), rounded up
+AreaScale(r, x) == ((x \div 1000) * ((r.c2q \div 1000) + 1)) + 1
+TolA(r) == AreaScale(r, TolArea * r.kap * (IF r.se = 1 THEN SeriesEdge ELSE 1))
 \* sum of the bounds of the series and the exact variant (record of the exact variant; xse = edge flag of the series one)
 TolLX(r, x) == (TolLen + Rel(x)) * r.kap * (1 + (IF r.xse = 1 THEN SeriesEdge ELSE 1))
-TolAX(r) == TolArea * r.kap * (1 + (IF r.xse = 1 THEN SeriesEdge ELSE 1))
+TolAX(r) == AreaScale(r, TolArea * r.kap * (1 + (IF r.xse = 1 THEN SeriesEdge ELSE 1)))
 Within(x, tol) == x >= 0 /\ x <= tol
 Meridional(aq) == aq <= 45000000 \/ aq >= 135000000        \* |tan(azi)| <= 1
 
@@ -54,6 +58,9 @@ AziObs(c, azx, azs, az, ca) ==
     [] c = "SE" -> ca = 0 /\ azs = 1 /\ ((azx = -1 /\ az[1] >= 90000 /\ az[1] <= 180000) \/ azx = 180)
     [] c = "SW" -> ca = 0 /\ azs = -1 /\ ((azx = -1 /\ az[1] >= 90000 /\ az[1] <= 180000) \/ azx = 180)
 NumOK(obs, exp) == exp = <<>> \/ NearP(obs, exp, TolPico)
+\* a latitude on the lattice: the tolerance is one of position; on the sharp end of an eccentric ellipsoid (the pole of a
+\* prolate, the equator of an oblate one) a degree of latitude is up to kap^2 times shorter than the unit of length
+LatTol(r) == TolPico * r.kap * r.kap
 
 LiLaws(r) ==
   LET tie == IsTie(r.k1, r.k2, r.d)
@@ -112,7 +119,7 @@ LdLaws(r) ==
       areaOK == (mer # <<>> \/ (r.lat1 = 0 /\ C2(r.azi) = 0)) => NearP(r.S, <<0, 0>>, TolPico)
   IN <<
     <<"ld-line-eq", r.pe /\ r.ue>>,
-    <<"ld-lat", r.cl = 0 /\ r.rng /\ ((r.sph \/ lat2 \in {0, 90, -90}) => NearP(r.lat2, PInt(lat2), TolPico))>>,
+    <<"ld-lat", r.cl = 0 /\ r.rng /\ ((r.sph \/ lat2 \in {0, 90, -90}) => NearP(r.lat2, PInt(lat2), LatTol(r)))>>,
     <<"ld-pole-nan", cls = "cross" => allNaN>>,
     <<"ld-finite", cls = "reg" => allFin>>,
     <<"ld-edge", cls \in {"edge", "polestart"} => (noneFin \/ (allFin /\ lonOK /\ areaOK))>>,
@@ -122,13 +129,66 @@ LdLaws(r) ==
     <<"ld-area", cls = "reg" => areaOK>>
   >>
 
+(* ------------------------------------------------- lattice: lm, im (call forms) *)
+\* c: class of each output argument after the call (0 finite, 1 NaN, 2/3 +-inf, -1 no such argument); judged where written
+LmLaws(r) ==
+  LET W == Written(r.form, r.m)
+      cls == DirClass(r.lat1, r.azi, r.s)
+      lat2 == Reflect(Mu2(r.lat1, r.azi, r.s))
+  IN <<
+    <<"lm-form", r.form \in DirectForms /\ r.m \in 0..63>>,
+    \* the general routine with and without LONG_UNROLL differs in lon2 only; its full-mask answer has the class of the model
+    <<"lm-ref", /\ r.rue /\ r.rc[1] = 0
+                /\ (cls = "cross" => r.rc[2] = 1 /\ r.rc[3] = 1 /\ r.rc[4] = 1)
+                /\ (cls = "reg" => r.rc[2] = 0 /\ r.rc[3] = 0 /\ r.rc[4] = 0)>>,
+    <<"lm-set", FormSet(r.form, r.m, r.o)>>,
+    <<"lm-val", FormVal(r.form, r.m, r.o)>>,
+    <<"lm-range", FormRange(r.form, r.m, r.o)>>,
+    <<"lm-lat", BLAT \in W => r.c[1] = 0 /\ ((r.sph \/ lat2 \in {0, 90, -90}) => NearP(r.lat2, PInt(lat2), LatTol(r)))>>,
+    <<"lm-pole-nan", cls = "cross" => (BLON \in W => r.c[2] = 1) /\ (BAREA \in W => r.c[3] = 1)>>,
+    <<"lm-finite", cls = "reg" => (BLON \in W => r.c[2] = 0) /\ (BAREA \in W => r.c[3] = 0)>>
+  >>
+
+ImLaws(r) ==
+  LET W == Written(r.form, r.m)
+      poles == IsPole(r.lat1) /\ IsPole(r.lat2)
+  IN <<
+    <<"im-form", r.form \in InverseForms /\ r.m \in 0..63>>,
+    <<"im-ref", r.rc[1] = 0 /\ (~(poles /\ r.lat1 = r.lat2) => r.rc[2] = 0) /\ (~poles => r.rc[3] = 0)>>,
+    <<"im-set", FormSet(r.form, r.m, r.o)>>,
+    <<"im-val", FormVal(r.form, r.m, r.o)>>,
+    <<"im-finite", /\ (BDIST \in W => r.c[1] = 0)
+                   /\ (BAZI \in W /\ ~(poles /\ r.lat1 = r.lat2) => r.c[2] = 0)
+                   /\ (BAREA \in W /\ ~poles => r.c[3] = 0)>>
+  >>
+
+(* Call forms on a seeded random record: the general routine(s) with the mask mm, every overload.   *)
+(* Constructor family: the default argument exact = false and the singleton WGS84() build the same   *)
+(* solver as the three-argument constructor (dfl, wg: 1 same results bit for bit, 0 not, -1 n/a).    *)
+OverloadMask(form) == MaskNum(Args(form))
+DirFormsSet(r) == /\ FormSet("GenDirect", r.mm, r.gd) /\ FormSet("GenPosition", r.mm, r.gp)
+                  /\ FormSet("Direct3", OverloadMask("Direct3"), r.d3) /\ FormSet("Direct2", OverloadMask("Direct2"), r.d2)
+                  /\ FormSet("Position3", OverloadMask("Position3"), r.p3) /\ FormSet("Position2", OverloadMask("Position2"), r.p2)
+DirFormsVal(r) == /\ FormVal("GenDirect", r.mm, r.gd) /\ FormVal("GenPosition", r.mm, r.gp)
+                  /\ FormVal("Direct3", OverloadMask("Direct3"), r.d3) /\ FormVal("Direct2", OverloadMask("Direct2"), r.d2)
+                  /\ FormVal("Position3", OverloadMask("Position3"), r.p3) /\ FormVal("Position2", OverloadMask("Position2"), r.p2)
+DirFormsRange(r) == /\ FormRange("GenDirect", r.mm, r.gd) /\ FormRange("GenPosition", r.mm, r.gp)
+                    /\ FormRange("Direct3", OverloadMask("Direct3"), r.d3) /\ FormRange("Direct2", OverloadMask("Direct2"), r.d2)
+                    /\ FormRange("Position3", OverloadMask("Position3"), r.p3) /\ FormRange("Position2", OverloadMask("Position2"), r.p2)
+InvFormsSet(r) == /\ FormSet("GenInverse", r.mm, r.gi)
+                  /\ FormSet("Inverse3", OverloadMask("Inverse3"), r.i3) /\ FormSet("Inverse2", OverloadMask("Inverse2"), r.i2)
+InvFormsVal(r) == /\ FormVal("GenInverse", r.mm, r.gi)
+                  /\ FormVal("Inverse3", OverloadMask("Inverse3"), r.i3) /\ FormVal("Inverse2", OverloadMask("Inverse2"), r.i2)
+CtorFamily(r) == (r.ex = 0 => r.dfl = 1) /\ (r.ex = 1 => r.dfl = -1) /\ r.wg # 0 /\ (r.ci = 2 => r.wg = 1)
+
 (* ------------------------------------------------------------------ ell *)
 EllLaws(r) ==
-  LET ta == 4 * TolArea * r.kap IN <<
+  LET ta == AreaScale(r, 4 * TolArea * r.kap) IN <<
     <<"ell-area", -r.dA <= ta /\ r.dA <= ta>>,
     <<"ell-xclass", -r.dAE <= 2 * ta /\ r.dAE <= 2 * ta /\ -r.dAG <= 2 * ta /\ r.dAG <= 2 * ta>>,
     <<"ell-oracle", -r.dQ <= TolLen * r.kap /\ r.dQ <= TolLen * r.kap>>,
-    <<"ell-insp", r.insp>>
+    <<"ell-insp", r.insp>>,
+    <<"ell-ctor", CtorFamily(r)>>
   >>
 
 (* ------------------------------------------------------------------ inv *)
@@ -140,6 +200,10 @@ InvLaws(r) ==
       gen == r.rk \in {0, 1}                     \* neither end at a pole, not coincident
       mE == IF r.rk = 0 /\ Meridional(r.aq) THEN r.mE1 ELSE r.mE2
   IN <<
+    \* (exact laws on the call forms first: they are named differently from the numeric laws of the record)
+    <<"form-inv-set", r.mm \in 0..63 /\ InvFormsSet(r)>>,
+    <<"form-inv-val", InvFormsVal(r)>>,
+    <<"ctor-inv", CtorFamily(r)>>,
     <<"inv-finite", r.cs = 0 /\ (r.rk # 4 => r.ca = 0) /\ (r.rk \notin {3, 4} => r.cS = 0)>>,
     <<"inv-s12", qok => Within(r.ds, tl)>>,
     <<"inv-merid", (qok /\ r.rk # 4) => Within(r.mN, tl)>>,
@@ -182,6 +246,12 @@ DirLaws(r) ==
       mE == IF r.rk = 0 /\ Meridional(r.aq) THEN r.mE1 ELSE r.mE2
       short == wide /\ r.lq < 179000000 /\ ~r.s0
   IN <<
+    <<"form-dir-set", r.mm \in 0..63 /\ DirFormsSet(r)>>,
+    <<"form-dir-val", DirFormsVal(r)>>,
+    <<"form-dir-range", DirFormsRange(r)>>,
+    <<"ctor-dir", CtorFamily(r)>>,
+    <<"line-insp", r.linsp>>,
+    <<"line-reuse", r.lre>>,
     <<"dir-line-eq", r.pe /\ r.ue>>,
     <<"dir-lat", r.cl = 0 /\ r.rng /\ Within(r.dlp, tl)>>,
     <<"dir-pole-nan", cross => (r.cn = 1 /\ r.cu = 1 /\ r.cS = 1)>>,
@@ -206,11 +276,14 @@ DirLaws(r) ==
 Laws(r) ==
   CASE r.e = "li" -> LiLaws(r) [] r.e = "ld" -> LdLaws(r) [] r.e = "ell" -> EllLaws(r)
     [] r.e = "inv" -> InvLaws(r) [] r.e = "dir" -> DirLaws(r)
+    [] r.e = "lm" -> LmLaws(r) [] r.e = "im" -> ImLaws(r)
     [] OTHER -> << <<"unknown-record", FALSE>> >>
 
 Expected(r) ==
   CASE r.e = "li" -> <<AziClass(r.lat1, r.lat2, Lon12(r.k1, r.k2, r.d)), Lon12(r.k1, r.k2, r.d)>>
     [] r.e = "ld" -> <<DirClass(r.lat1, r.azi, r.s), Reflect(Mu2(r.lat1, r.azi, r.s))>>
+    [] r.e = "lm" -> <<DirClass(r.lat1, r.azi, r.s), r.form, MaskNum(Written(r.form, r.m)), Unrolled(r.form, r.m)>>
+    [] r.e = "im" -> <<r.form, MaskNum(Written(r.form, r.m))>>
     [] OTHER -> <<>>
 
 Init == l = 1 /\ KitInit
